@@ -67,5 +67,31 @@ func c36Scenarios(thorough bool) []driver.Scenario {
 	take(c26Scenarios(false), every(19), 0)
 	take(c27Scenarios(false), func(i int, s driver.Scenario) bool { return s.Sequential && i%33 == 0 }, 0)
 	take(c28Scenarios(false), func(i int, s driver.Scenario) bool { return s.Sequential && i%5 == 0 }, 0)
-	return out
+	// a server-side writer (ChangeNotification) against add/remove of monitored items on the same nodes, and
+	// the consumer-driven application of C27
+	byName := func(names ...string) func(int, driver.Scenario) bool {
+		return func(_ int, s driver.Scenario) bool {
+			for _, n := range names {
+				if s.Name == n {
+					return true
+				}
+			}
+			return false
+		}
+	}
+	have := map[string]bool{}
+	for _, s := range out {
+		have[s.Name] = true
+	}
+	n = len(out)
+	take(c28Scenarios(false), byName("c28/script=SA/writes=2/delay_bounded=false/aged=0", "c28/script=SCA/writes=1/delay_bounded=false/aged=0"), 0)
+	take(c27Scenarios(false), byName("c27/script=D/fault_at=0/delay_bounded=false"), 0)
+	// drop what the modulo selection above already took
+	kept := out[:n]
+	for _, s := range out[n:] {
+		if !have[s.Name] {
+			kept = append(kept, s)
+		}
+	}
+	return kept
 }
